@@ -324,6 +324,108 @@ func (c *Ctx) dedicatedE2E() {
 	c.multiLeakObservations()
 	c.retryReleaseEpisodes()
 	c.clusterStaleEpisodes()
+	c.abandonedBlockingEpisodes()
+}
+
+// abandonedBlockingEpisodes: a blocking command issued through the SHARED client is abandoned by its
+// caller (context cancelled) while the server has not answered (the fake withholds the reply behind a
+// gate, like a BLPOP that is still blocked); the pipe itself is healthy. The next Dedicate() must get
+// a connection on which nobody's command is pending, and its own command must be served.
+func (c *Ctx) abandonedBlockingEpisodes() {
+	bg := context.Background()
+	for _, variant := range []string{"do", "multi", "answered"} {
+		srv := fakeredis.New(fakeredis.Options{})
+		gate := make(chan struct{})
+		if variant == "answered" {
+			close(gate) // control: the blocking command is answered, its wire may be reused
+		}
+		srv.AddRule(fakeredis.Rule{Match: fakeredis.Cmd("BLPOP"), Reply: []byte("*-1\r\n"), Gate: gate})
+		cl, err := rueidis.NewClient(rueidis.ClientOption{InitAddress: []string{"fake:1"}, DialCtxFn: srv.Dial, ForceSingleClient: true,
+			PipelineMultiplex: -1, DisableRetry: true})
+		if err != nil {
+			panic(err)
+		}
+		ctx, cancel := context.WithCancel(bg)
+		done := make(chan error, 1)
+		go func() {
+			if variant == "multi" {
+				done <- cl.DoMulti(ctx, cl.B().Blpop().Key("blk").Timeout(0).Build(), cl.B().Blpop().Key("blk").Timeout(0).Build())[0].NonRedisError()
+			} else {
+				done <- cl.Do(ctx, cl.B().Blpop().Key("blk").Timeout(0).Build()).NonRedisError()
+			}
+		}()
+		blocked := func() bool {
+			for _, e := range srv.Log() {
+				if e.Argv[0] == "BLPOP" {
+					return true
+				}
+			}
+			return false
+		}
+		if !srv.WaitFor(2*time.Second, blocked) {
+			panic("BLPOP did not reach the fake")
+		}
+		early := variant != "answered"
+		if early {
+			cancel()
+		}
+		var rerr error
+		select {
+		case rerr = <-done:
+		case <-time.After(2 * time.Second):
+			c.Fail("dedicated:blocking-call-stuck", "blocking "+variant, "the abandoned blocking call did not return")
+		}
+		cancel()
+		// model line: what happens to the wire
+		dc, rel := cl.Dedicate()
+		tctx, tcancel := context.WithTimeout(bg, 500*time.Millisecond)
+		derr := dc.Do(tctx, dc.B().Get().Key("dk").Build()).NonRedisError()
+		tcancel()
+		conn, pending, blockConn := 0, 0, 0
+		answered := map[uint64]bool{}
+		for _, o := range srv.Outs() {
+			if !o.IsPush {
+				answered[o.ID] = true
+			}
+		}
+		// a gated reply is queued (logged in Outs) but not written: treat the gated BLPOP as pending while the gate is shut
+		for _, e := range srv.Log() {
+			if e.Argv[0] == "BLPOP" {
+				blockConn = e.Conn
+			}
+			if len(e.Argv) == 2 && e.Argv[0] == "GET" && e.Argv[1] == "dk" {
+				conn = e.Conn
+			}
+		}
+		if early && conn != 0 && conn == blockConn {
+			for _, e := range srv.ConnLog(conn) {
+				if e.Argv[0] == "BLPOP" {
+					pending++
+				}
+			}
+		}
+		kept := "discarded"
+		if conn != 0 && conn == blockConn {
+			kept = "kept"
+		}
+		c.Emit(fmt.Sprintf("blocking early=%s", b01(early)), kept, true)
+		served := "ok"
+		if derr != nil {
+			served = "err"
+		}
+		ans := fmt.Sprintf("pending=%d served=%s", pending, served)
+		c.Emit("!fresh "+variant, ans, false)
+		if pending != 0 || derr != nil {
+			c.Fail("dedicated:wire-with-pending-foreign-command", "blocking "+variant, fmt.Sprintf("after a shared-client blocking command was abandoned (%v) the next Dedicate() got connection %d with %d command(s) of another caller still pending; its own GET: %v", rerr, conn, pending, derr))
+		}
+		c.Hit("abandoned-blocking:" + variant)
+		if early {
+			close(gate)
+		}
+		rel()
+		cl.Close()
+		srv.Close()
+	}
 }
 
 // clusterStaleEpisodes: the CLUSTER client's DedicatedClient (cluster.go dedicatedClusterClient, which
